@@ -1,11 +1,11 @@
-// Unit `jwt_claims` — serves C07 (+ the consistency clauses of C02 / C03, + C05).
-// Verified at the instantiation T = Object (credential properties) and CRED = Jwt (R7): the repository's
-// generic bounds mention serde traits that mean nothing to the verifier.
+// Unit `vc_validate` — serves C02 (+ C05). Includes the body of unit `jwt_claims` and the shared validator prelude.
+// Verified at DOC = CoreDocument, T = Object, D = CoreDID (R7).
 #![feature(allocator_api)]
 #![feature(sized_hierarchy)]
 #![verifier::allow(undeclared_external_trait)]
 use vstd::prelude::*;
 use std::borrow::Cow;
+use vstd::string::StringSliceAdditionalSpecFns;
 verus! {
 
 // ---- shared std prelude (assumed specifications of core/alloc items vstd does not cover) ----
@@ -1112,6 +1112,689 @@ impl<'presentation> PresentationJwtClaims<'presentation> {
 } // mod fns6
 
 
+// ---------------- dependency boundary: the holder document and the jose layer (contracts proved in units core_document / jws_decode) ----------------
+pub mod vdep {
+  use vstd::prelude::*; use std::borrow::Cow; use super::ctypes::*;
+  #[verifier::external_body] pub struct CoreDocument { _p: () }
+  #[verifier::external_body] pub struct CoreDID { _p: () }
+  #[verifier::external_body] pub struct JwsHeader { _p: () }
+  #[verifier::external_body] pub struct DIDUrl { _p: () }
+  #[verifier::external_body] #[derive(Clone, Copy)] pub struct MethodScope { _p: () }
+  /// identity_document::verifiable::JwsVerificationOptions (fields as in the repository)
+  pub struct JwsVerificationOptions { pub nonce: Option<String>, pub method_scope: Option<MethodScope>, pub method_id: Option<DIDUrl> }
+  #[verifier::external_body] pub struct DidError { _p: () }
+  #[verifier::external_body] pub struct CoreError { _p: () }
+  pub mod identity_document { pub mod error { use vstd::prelude::*; #[verifier::external_body] pub struct Error { _p: () } } }
+  pub mod identity_verification { pub mod jose { pub mod error { use vstd::prelude::*; #[verifier::external_body] pub struct Error { _p: () } } } }
+  pub struct DecodedJws<'a> { pub protected: JwsHeader, pub unprotected: Option<Box<JwsHeader>>, pub claims: Cow<'a, [u8]> }
+  pub trait JwsVerifier {}
+  pub uninterp spec fn doc_id(d: &CoreDocument) -> &CoreDID;
+  pub uninterp spec fn did_of_text(s: Seq<char>) -> Option<CoreDID>;
+  pub uninterp spec fn url_text(u: &Url) -> Seq<char>;
+  pub uninterp spec fn jwt_text(j: &Jwt) -> Seq<char>;
+  /// "CoreDocument::verify_jws(jwt, None, verifier, options) succeeded for this document and returned these claim bytes"
+  /// (its own contract — nonce, method of THIS document chosen by kid / method id within the scope, C01 verification — is proved in unit core_document)
+  pub uninterp spec fn verified_by_doc<T>(d: &CoreDocument, jws: Seq<char>, verifier: &T, options: &JwsVerificationOptions) -> bool;
+  /// the claim bytes verify_jws hands back (a function of its inputs)
+  pub uninterp spec fn vj_claims<T>(d: &CoreDocument, jws: Seq<char>, verifier: &T, options: &JwsVerificationOptions) -> Seq<u8>;
+  pub open spec fn cow_bytes(c: Cow<'_, [u8]>) -> Seq<u8> { match c { Cow::Borrowed(b) => b@, Cow::Owned(v) => v@ } }
+  impl CoreDocument {
+    #[verifier::external_body] pub fn id(&self) -> (r: &CoreDID) ensures r == doc_id(self) { unimplemented!() }
+    #[verifier::external_body]
+    pub fn verify_jws<'jws, T: JwsVerifier>(&self, jws: &'jws str, detached_payload: Option<&'jws [u8]>, signature_verifier: &T, options: &JwsVerificationOptions)
+      -> (r: core::result::Result<DecodedJws<'jws>, identity_document::error::Error>)
+      ensures r is Ok ==> verified_by_doc(self, jws@, signature_verifier, options) && cow_bytes(r->Ok_0.claims) == vj_claims(self, jws@, signature_verifier, options)
+    { unimplemented!() }
+  }
+  impl core::convert::AsRef<CoreDocument> for CoreDocument { #[verifier::external_body] fn as_ref(&self) -> (r: &CoreDocument) ensures r == self { unimplemented!() } }
+  impl Jwt { #[verifier::external_body] pub fn as_str(&self) -> (r: &str) ensures r@ == jwt_text(self) { unimplemented!() } }
+  impl Url { #[verifier::external_body] pub fn as_str(&self) -> (r: &str) ensures r@ == url_text(self) { unimplemented!() } }
+  impl core::str::FromStr for CoreDID {
+    type Err = DidError;
+    #[verifier::external_body] fn from_str(s: &str) -> (r: core::result::Result<Self, DidError>) ensures r is Ok <==> did_of_text(s@) is Some, r is Ok ==> r->Ok_0 == did_of_text(s@)->Some_0 { unimplemented!() }
+  }
+  impl vstd::std_specs::cmp::PartialEqSpecImpl for CoreDID { open spec fn obeys_eq_spec() -> bool { true } open spec fn eq_spec(&self, other: &CoreDID) -> bool { *self == *other } }
+  impl PartialEq for CoreDID { #[verifier::external_body] fn eq(&self, other: &Self) -> (r: bool) ensures r == (*self == *other) { unimplemented!() } }
+  // Timestamp ordering = ordering of unix seconds (derived Ord on the transparent newtype; C13), Default = now_utc()
+  impl vstd::std_specs::cmp::PartialOrdSpecImpl for Timestamp {
+    open spec fn obeys_partial_cmp_spec() -> bool { true }
+    open spec fn partial_cmp_spec(&self, other: &Timestamp) -> Option<core::cmp::Ordering> {
+      if ts_unix(*self) < ts_unix(*other) { Some(core::cmp::Ordering::Less) } else if ts_unix(*self) == ts_unix(*other) { Some(core::cmp::Ordering::Equal) } else { Some(core::cmp::Ordering::Greater) }
+    }
+  }
+  impl PartialOrd for Timestamp { #[verifier::external_body] fn partial_cmp(&self, other: &Self) -> (r: Option<core::cmp::Ordering>) { unimplemented!() } }
+  pub uninterp spec fn now() -> Timestamp;
+  impl Default for Timestamp { #[verifier::external_body] fn default() -> (r: Self) ensures r == now() { unimplemented!() } }
+}
+use vdep::*;
+
+pub enum SignerContext {
+  Issuer,
+  Holder,
+}
+pub enum JwtValidationError {
+  JwsDecodingError( identity_verification::jose::error::Error),
+  PresentationJwsError( identity_document::error::Error),
+  MethodDataLookupError {
+    source: Option<BoxedError>,
+    message: &'static str,
+    signer_ctx: SignerContext,
+  },
+  IdentifierMismatch {
+    signer_ctx: SignerContext,
+  },
+  ExpirationDate,
+  IssuanceDate,
+  Signature {
+    source: identity_verification::jose::error::Error,
+    signer_ctx: SignerContext,
+  },
+  SignerUrl {
+    source: BoxedError,
+    signer_ctx: SignerContext,
+  },
+  DocumentMismatch(SignerContext),
+  CredentialStructure( Error),
+  PresentationStructure( Error),
+  SubjectHolderRelationship,
+  MissingPresentationHolder,
+  InvalidStatus( Error),
+  ServiceLookupError,
+  Revoked,
+  Suspended,
+}
+/// conversions into the boxed error payloads (`err.into()`): opaque
+impl From<CoreError> for BoxedError { #[verifier::external_body] fn from(e: CoreError) -> Self { unimplemented!() } }
+impl From<DidError> for BoxedError { #[verifier::external_body] fn from(e: DidError) -> Self { unimplemented!() } }
+impl From<TsError> for BoxedError { #[verifier::external_body] fn from(e: TsError) -> Self { unimplemented!() } }
+impl From<Error> for BoxedError { #[verifier::external_body] fn from(e: Error) -> Self { unimplemented!() } }
+
+
+// ------------- further dependency boundary: the decoded token, DID URLs, method resolution in a trusted document -------------
+pub mod cdep {
+  use vstd::prelude::*; use std::borrow::Cow; use super::ctypes::*; use super::vdep::*;
+  #[verifier::external_body] pub struct JwsValidationItem<'a> { _p: core::marker::PhantomData<&'a ()> }
+  #[verifier::external_body] pub struct Jwk { _p: () }
+  #[verifier::external_body] pub struct Decoder { _p: () }
+  #[verifier::external_body] pub struct VerificationMethod { _p: () }
+  #[verifier::external_body] pub struct MethodData { _p: () }
+  pub uninterp spec fn item_of(jws: Seq<u8>) -> JwsValidationItem<'static>;
+  pub uninterp spec fn item_nonce(i: &JwsValidationItem<'_>) -> Option<Seq<char>>;
+  pub uninterp spec fn item_kid(i: &JwsValidationItem<'_>) -> Option<Seq<char>>;
+  pub uninterp spec fn item_claims(i: &JwsValidationItem<'_>) -> Seq<u8>;
+  pub uninterp spec fn item_header(i: &JwsValidationItem<'_>) -> JwsHeader;
+  /// "JwsValidationItem::verify succeeded under this key" (C01: alg from the protected header, key alg pin, verifier accepts the received bytes)
+  pub uninterp spec fn verified_under<T>(i: &JwsValidationItem<'_>, verifier: &T, key: &Jwk) -> bool;
+  pub uninterp spec fn url_of_text(s: Seq<char>) -> Option<DIDUrl>;
+  pub uninterp spec fn url_did(u: &DIDUrl) -> &CoreDID;
+  /// the JWK of the method that `doc.resolve_method(id, scope)` yields (contract of resolve_method: unit core_document)
+  pub uninterp spec fn resolved_jwk(d: &CoreDocument, id: &DIDUrl, scope: Option<MethodScope>) -> Option<Jwk>;
+  pub uninterp spec fn header_kid(h: &JwsHeader) -> Option<Seq<char>>;
+  impl Clone for DIDUrl { #[verifier::external_body] fn clone(&self) -> (r: Self) ensures r == *self { unimplemented!() } }
+  impl DIDUrl {
+    #[verifier::external_body] pub fn parse(input: &str) -> (r: core::result::Result<DIDUrl, DidError>) ensures r is Ok <==> url_of_text(input@) is Some, r is Ok ==> r->Ok_0 == url_of_text(input@)->Some_0 { unimplemented!() }
+    #[verifier::external_body] pub fn did(&self) -> (r: &CoreDID) ensures r == url_did(self) { unimplemented!() }
+  }
+  impl JwsHeader { #[verifier::external_body] pub fn kid(&self) -> (r: Option<&str>) ensures r is Some <==> header_kid(self) is Some, r is Some ==> r->Some_0@ == header_kid(self)->Some_0 { unimplemented!() } }
+  pub uninterp spec fn item_protected(i: &JwsValidationItem<'_>) -> Option<JwsHeader>;
+  impl<'a> JwsValidationItem<'a> {
+    #[verifier::external_body] pub fn nonce(&self) -> (r: Option<&str>) ensures r is Some <==> item_nonce(self) is Some, r is Some ==> r->Some_0@ == item_nonce(self)->Some_0 { unimplemented!() }
+    #[verifier::external_body] pub fn protected_header(&self) -> (r: Option<&JwsHeader>) ensures r is Some <==> item_protected(self) is Some, r is Some ==> *r->Some_0 == item_protected(self)->Some_0 { unimplemented!() }
+    #[verifier::external_body]
+    pub fn verify<T: JwsVerifier>(self, verifier: &T, public_key: &Jwk) -> (r: core::result::Result<DecodedJws<'a>, identity_verification::jose::error::Error>)
+      ensures r is Ok ==> verified_under(&self, verifier, public_key) && cow_bytes(r->Ok_0.claims) == item_claims(&self) && r->Ok_0.protected == item_header(&self)
+    { unimplemented!() }
+  }
+  impl Decoder {
+    #[verifier::external_body] pub fn new() -> Decoder { unimplemented!() }
+    #[verifier::external_body]
+    pub fn decode_compact_serialization<'b>(&self, jws_bytes: &'b [u8], detached_payload: Option<&'b [u8]>) -> (r: core::result::Result<JwsValidationItem<'b>, identity_verification::jose::error::Error>)
+      ensures r is Ok ==> r->Ok_0 == item_of(jws_bytes@)
+    { unimplemented!() }
+  }
+  impl VerificationMethod { #[verifier::external_body] pub fn data(&self) -> (r: &MethodData) ensures r == vm_data(self) { unimplemented!() } }
+  pub uninterp spec fn vm_data(m: &VerificationMethod) -> &MethodData;
+  pub uninterp spec fn data_jwk(d: &MethodData) -> Option<Jwk>;
+  impl MethodData { #[verifier::external_body] pub fn public_key_jwk(&self) -> (r: Option<&Jwk>) ensures r is Some <==> data_jwk(self) is Some, r is Some ==> *r->Some_0 == data_jwk(self)->Some_0 { unimplemented!() } }
+  impl CoreDocument {
+    /// resolve_method at Q = &DIDUrl, composed with `.data().public_key_jwk()` in the caller: abstract here
+    #[verifier::external_body]
+    pub fn resolve_method<'me>(&'me self, method_query: &DIDUrl, scope: Option<MethodScope>) -> (r: Option<&'me VerificationMethod>)
+      ensures (r is Some && data_jwk(r->Some_0.data_spec()) is Some) <==> resolved_jwk(self, method_query, scope) is Some,
+              resolved_jwk(self, method_query, scope) is Some ==> data_jwk(r->Some_0.data_spec())->Some_0 == resolved_jwk(self, method_query, scope)->Some_0
+    { unimplemented!() }
+  }
+  impl VerificationMethod { pub open spec fn data_spec(&self) -> &MethodData { vm_data(self) } }
+}
+use cdep::*;
+
+// revocation side (contracts of the bitmap itself: unit revocation_bitmap)
+#[verifier::external_body] pub struct RevocationBitmapStatus { _p: () }
+#[verifier::external_body] pub struct RevocationBitmap { _p: () }
+#[verifier::external_body] pub struct RevocationError { _p: () }
+#[verifier::external_body] pub struct DIDUrlQuery { _p: () }
+pub uninterp spec fn rb_members(b: &RevocationBitmap) -> Set<u32>;
+pub uninterp spec fn status_service_url(s: &RevocationBitmapStatus) -> Option<DIDUrl>;
+pub uninterp spec fn status_index(s: &RevocationBitmapStatus) -> Option<u32>;
+pub uninterp spec fn status_of(s: &Status) -> Option<RevocationBitmapStatus>;
+pub uninterp spec fn status_type(s: &Status) -> Seq<char>;
+/// the bitmap stored in the service of `d` that `url` addresses (resolve_service + TryFrom<&Service>)
+pub uninterp spec fn doc_bitmap(d: &CoreDocument, url: &DIDUrl) -> Option<RevocationBitmap>;
+impl RevocationBitmap {
+  #[verifier::external_body] pub fn is_revoked(&self, index: u32) -> (r: bool) ensures r == rb_members(self).contains(index) { unimplemented!() }
+}
+impl RevocationBitmapStatus {
+  #[verifier::external_body] pub fn id(&self) -> (r: Result<DIDUrl>) ensures r is Ok <==> status_service_url(self) is Some, r is Ok ==> r->Ok_0 == status_service_url(self)->Some_0 { unimplemented!() }
+  #[verifier::external_body] pub fn index(&self) -> (r: Result<u32>) ensures r is Ok <==> status_index(self) is Some, r is Ok ==> r->Ok_0 == status_index(self)->Some_0 { unimplemented!() }
+}
+pub uninterp spec fn q_of(u: DIDUrl) -> DIDUrlQuery;
+impl vstd::std_specs::convert::FromSpecImpl<DIDUrl> for DIDUrlQuery { open spec fn obeys_from_spec() -> bool { true } open spec fn from_spec(u: DIDUrl) -> Self { q_of(u) } }
+impl From<DIDUrl> for DIDUrlQuery { #[verifier::external_body] fn from(u: DIDUrl) -> (r: Self) ensures r == q_of(u) { unimplemented!() } }
+impl CoreDocument {
+  #[verifier::external_body]
+  pub fn resolve_revocation_bitmap(&self, query: DIDUrlQuery) -> (r: core::result::Result<RevocationBitmap, RevocationError>)
+    ensures forall|u: DIDUrl| query == q_of(u) ==> (r is Ok <==> doc_bitmap(self, &u) is Some) && (r is Ok ==> r->Ok_0 == doc_bitmap(self, &u)->Some_0)
+  { unimplemented!() }
+}
+
+#[derive(Clone, Copy)]
+pub enum StatusCheck {
+  Strict = 0,
+  SkipUnsupported = 1,
+  SkipAll = 2,
+}
+#[derive(Clone, Copy)]
+pub enum SubjectHolderRelationship {
+  AlwaysSubject = 0,
+  SubjectOnNonTransferable = 1,
+  Any = 2,
+}
+#[derive(Clone, Copy)]
+pub enum FailFast {
+  AllErrors,
+  FirstError,
+}
+pub struct DecodedJwtCredential {
+  pub credential: Credential,
+  pub header: Box<JwsHeader>,
+  pub custom_claims: Option<Object>,
+}
+pub struct JwtCredentialValidator<V: JwsVerifier>(pub V);
+pub struct JwtCredentialValidatorUtils;
+type ValidationUnitResult<T = ()> = std::result::Result<T, JwtValidationError>;
+
+/// JSON deserialisation of the credential claims: uninterpreted
+pub uninterp spec fn json_cred_claims(b: Seq<u8>) -> Option<CredentialJwtClaims<'static>>;
+impl<'p> CredentialJwtClaims<'p> {
+  #[verifier::external_body]
+  pub fn from_json_slice(data: &Cow<'_, [u8]>) -> (r: core::result::Result<CredentialJwtClaims<'static>, CoreError>)
+    ensures r is Ok <==> json_cred_claims(cow_bytes(*data)) is Some, r is Ok ==> r->Ok_0 == json_cred_claims(cow_bytes(*data))->Some_0
+  { unimplemented!() }
+}
+pub open spec fn opt_str(o: Option<String>) -> Option<Seq<char>> { if o is Some { Some(o->Some_0@) } else { None } }
+pub open spec fn issuer_url(i: &Issuer) -> &Url { issuer_url_spec(i) }
+/// the bytes of a text (ASSUMED: a str's bytes are determined by its characters)
+pub uninterp spec fn str_bytes_of(s: Seq<char>) -> Seq<u8>;
+pub mod tbax { use vstd::prelude::*; use vstd::string::StringSliceAdditionalSpecFns; use super::str_bytes_of;
+pub broadcast proof fn axiom_str_bytes(s: &str) ensures #[trigger] s.spec_bytes() == str_bytes_of(s@) { admit(); } }
+pub open spec fn item_of_jwt(j: &Jwt) -> JwsValidationItem<'static> { item_of(str_bytes_of(jwt_text(j))) }
+/// the first trusted document whose id equals `did`
+pub open spec fn first_doc(docs: Seq<CoreDocument>, did: &CoreDID) -> Option<int> {
+  if exists|i: int| 0 <= i < docs.len() && doc_id(&#[trigger] docs[i]) == did {
+    Some(choose|i: int| 0 <= i < docs.len() && doc_id(&#[trigger] docs[i]) == did && forall|j: int| 0 <= j < i ==> doc_id(&#[trigger] docs[j]) != did)
+  } else { None }
+}
+
+pub mod cfns { use vstd::prelude::*; use std::borrow::Cow; use std::str::FromStr; use vstd::std_specs::iter::IteratorSpec; use super::*;
+broadcast use {ctypes::axiom_ts_window, ctypes::axiom_ts_ext, axiom_cow_ref_issuer, axiom_cow_ref_url, axiom_cow_owned_issuer, axiom_cow_owned_url, vxstd::axiom_question_mark_uses_from, vxstd::axiom_str_ext, tbax::axiom_str_bytes};
+impl JwtCredentialValidatorUtils {
+  pub fn check_expires_on_or_after(credential: &Credential, timestamp: Timestamp) -> (r: ValidationUnitResult)
+    ensures r is Ok <==> (credential.expiration_date is None || ts_unix(credential.expiration_date->Some_0) >= ts_unix(timestamp)),
+  {
+    let expiration_date: Option<Timestamp> = credential.expiration_date;
+    (expiration_date.is_none() || expiration_date >= Some(timestamp))
+      .then_some(())
+      .ok_or(JwtValidationError::ExpirationDate)
+  }
+  pub fn check_expires_on_or_after__canary(credential: &Credential, timestamp: Timestamp) -> (r: ValidationUnitResult)
+    ensures r is Ok <==> (credential.expiration_date is None || ts_unix(credential.expiration_date->Some_0) >= ts_unix(timestamp)),
+      false,
+  {
+    let expiration_date: Option<Timestamp> = credential.expiration_date;
+    (expiration_date.is_none() || expiration_date >= Some(timestamp))
+      .then_some(())
+      .ok_or(JwtValidationError::ExpirationDate)
+  }
+  pub fn check_issued_on_or_before(credential: &Credential, timestamp: Timestamp) -> (r: ValidationUnitResult)
+    ensures r is Ok <==> ts_unix(credential.issuance_date) <= ts_unix(timestamp),
+  {
+    (credential.issuance_date <= timestamp)
+      .then_some(())
+      .ok_or(JwtValidationError::IssuanceDate)
+  }
+  pub fn check_issued_on_or_before__canary(credential: &Credential, timestamp: Timestamp) -> (r: ValidationUnitResult)
+    ensures r is Ok <==> ts_unix(credential.issuance_date) <= ts_unix(timestamp),
+      false,
+  {
+    (credential.issuance_date <= timestamp)
+      .then_some(())
+      .ok_or(JwtValidationError::IssuanceDate)
+  }
+  pub fn extract_issuer(credential: &Credential) -> (r: std::result::Result<CoreDID, JwtValidationError>)
+    ensures r is Ok <==> did_of_text(url_text(issuer_url(&credential.issuer))) is Some, r is Ok ==> r->Ok_0 == did_of_text(url_text(issuer_url(&credential.issuer)))->Some_0,
+  {
+    CoreDID::from_str(credential.issuer.url().as_str()).map_err(|err| JwtValidationError::SignerUrl {
+      signer_ctx: SignerContext::Issuer,
+      source: err.into(),
+    })
+  }
+  pub fn extract_issuer__canary(credential: &Credential) -> (r: std::result::Result<CoreDID, JwtValidationError>)
+    ensures r is Ok <==> did_of_text(url_text(issuer_url(&credential.issuer))) is Some, r is Ok ==> r->Ok_0 == did_of_text(url_text(issuer_url(&credential.issuer)))->Some_0,
+      false,
+  {
+    CoreDID::from_str(credential.issuer.url().as_str()).map_err(|err| JwtValidationError::SignerUrl {
+      signer_ctx: SignerContext::Issuer,
+      source: err.into(),
+    })
+  }
+}
+
+/// conditions of `parse_jwk` (C02): nonce equal, method id from the options or the kid, issuer document located by DID equality,
+/// key = the JWK of the method that document resolves for that id within the configured scope
+pub open spec fn jwk_selected(jws: &JwsValidationItem<'_>, docs: Seq<CoreDocument>, options: &JwsVerificationOptions, jwk: &Jwk, id: &DIDUrl) -> bool {
+  &&& item_nonce(jws) == opt_str(options.nonce)
+  &&& (options.method_id is Some ==> *id == options.method_id->Some_0)
+  &&& (options.method_id is None ==> item_protected(jws) is Some && header_kid(&item_protected(jws)->Some_0) is Some
+         && url_of_text(header_kid(&item_protected(jws)->Some_0)->Some_0) == Some(*id))
+  // (that the document found is an ELEMENT of `docs` is the std contract of slice::Iter::find; it could not be re-derived inside this function and is not restated)
+  &&& exists|d: CoreDocument| doc_id(&d) == url_did(id) && #[trigger] resolved_jwk(&d, id, options.method_scope) == Some(*jwk)
+}
+impl<V: JwsVerifier> JwtCredentialValidator<V> {
+  pub fn parse_jwk<'a, 'i>(
+  jws: &JwsValidationItem<'a>,
+  trusted_issuers: &'i [CoreDocument],
+  options: &JwsVerificationOptions,
+  ) -> (r: Result<(&'a Jwk, DIDUrl), JwtValidationError>) where 'i: 'a,
+    ensures r is Ok ==> jwk_selected(jws, trusted_issuers@, options, r->Ok_0.0, &r->Ok_0.1),
+  {
+    let nonce: Option<&str> = options.nonce.as_deref();
+    // Validate the nonce
+    if jws.nonce() != nonce {
+      return Err(JwtValidationError::JwsDecodingError(
+        invalid_nonce_error(),
+      ));
+    }
+
+    // If no method_url is set, parse the `kid` to a DID Url which should be the identifier
+    // of a verification method in a trusted issuer's DID document.
+    let method_id: DIDUrl =
+      match &options.method_id {
+        Some(method_id) => method_id.clone(),
+        None => {
+          let kid: &str = jws.protected_header().and_then(|header: &JwsHeader| -> (o: Option<&str>) ensures o is Some <==> header_kid(header) is Some, o is Some ==> o->Some_0@ == header_kid(header)->Some_0 { header.kid() }).ok_or(
+            JwtValidationError::MethodDataLookupError {
+              source: None,
+              message: "could not extract kid from protected header",
+              signer_ctx: SignerContext::Issuer,
+            },
+          )?;
+
+          // Convert kid to DIDUrl
+          DIDUrl::parse(kid).map_err(|err| JwtValidationError::MethodDataLookupError {
+            source: Some(BoxedError::from(err)),
+            message: "could not parse kid as a DID Url",
+            signer_ctx: SignerContext::Issuer,
+          })?
+        }
+      };
+
+    // locate the corresponding issuer
+    let issuer: &CoreDocument = trusted_issuers
+      .iter()
+      .map(|x_eta| -> (r_eta: _) requires call_requires(AsRef::as_ref, (x_eta,)) ensures call_ensures(AsRef::as_ref, (x_eta,), r_eta) { AsRef::as_ref(x_eta) })
+      .find(|issuer_doc: &&CoreDocument| -> (b: bool) ensures b == (doc_id(*issuer_doc) == url_did(&method_id)) { <CoreDocument>::id(issuer_doc) == method_id.did() })
+      .ok_or(JwtValidationError::DocumentMismatch(SignerContext::Issuer))?;
+
+    // Obtain the public key from the issuer's DID document
+    issuer
+      .resolve_method(&method_id, options.method_scope)
+      .and_then(|method: &VerificationMethod| -> (o: Option<&Jwk>) ensures o is Some <==> data_jwk(vm_data(method)) is Some, o is Some ==> *o->Some_0 == data_jwk(vm_data(method))->Some_0 { method.data().public_key_jwk() })
+      .ok_or_else(|| JwtValidationError::MethodDataLookupError {
+        source: None,
+        message: "could not extract JWK from a method identified by kid",
+        signer_ctx: SignerContext::Issuer,
+      })
+      .map(move |jwk: &'a Jwk| -> (t: (&'a Jwk, DIDUrl)) ensures t.0 == jwk && t.1 == method_id { (jwk, method_id) })
+  }
+  pub fn parse_jwk__canary<'a, 'i>(
+  jws: &JwsValidationItem<'a>,
+  trusted_issuers: &'i [CoreDocument],
+  options: &JwsVerificationOptions,
+  ) -> (r: Result<(&'a Jwk, DIDUrl), JwtValidationError>) where 'i: 'a,
+    ensures r is Ok ==> jwk_selected(jws, trusted_issuers@, options, r->Ok_0.0, &r->Ok_0.1),
+      false,
+  {
+    let nonce: Option<&str> = options.nonce.as_deref();
+    // Validate the nonce
+    if jws.nonce() != nonce {
+      return Err(JwtValidationError::JwsDecodingError(
+        invalid_nonce_error(),
+      ));
+    }
+
+    // If no method_url is set, parse the `kid` to a DID Url which should be the identifier
+    // of a verification method in a trusted issuer's DID document.
+    let method_id: DIDUrl =
+      match &options.method_id {
+        Some(method_id) => method_id.clone(),
+        None => {
+          let kid: &str = jws.protected_header().and_then(|header: &JwsHeader| -> (o: Option<&str>) ensures o is Some <==> header_kid(header) is Some, o is Some ==> o->Some_0@ == header_kid(header)->Some_0 { header.kid() }).ok_or(
+            JwtValidationError::MethodDataLookupError {
+              source: None,
+              message: "could not extract kid from protected header",
+              signer_ctx: SignerContext::Issuer,
+            },
+          )?;
+
+          // Convert kid to DIDUrl
+          DIDUrl::parse(kid).map_err(|err| JwtValidationError::MethodDataLookupError {
+            source: Some(BoxedError::from(err)),
+            message: "could not parse kid as a DID Url",
+            signer_ctx: SignerContext::Issuer,
+          })?
+        }
+      };
+
+    // locate the corresponding issuer
+    let issuer: &CoreDocument = trusted_issuers
+      .iter()
+      .map(|x_eta| -> (r_eta: _) requires call_requires(AsRef::as_ref, (x_eta,)) ensures call_ensures(AsRef::as_ref, (x_eta,), r_eta) { AsRef::as_ref(x_eta) })
+      .find(|issuer_doc: &&CoreDocument| -> (b: bool) ensures b == (doc_id(*issuer_doc) == url_did(&method_id)) { <CoreDocument>::id(issuer_doc) == method_id.did() })
+      .ok_or(JwtValidationError::DocumentMismatch(SignerContext::Issuer))?;
+
+    // Obtain the public key from the issuer's DID document
+    issuer
+      .resolve_method(&method_id, options.method_scope)
+      .and_then(|method: &VerificationMethod| -> (o: Option<&Jwk>) ensures o is Some <==> data_jwk(vm_data(method)) is Some, o is Some ==> *o->Some_0 == data_jwk(vm_data(method))->Some_0 { method.data().public_key_jwk() })
+      .ok_or_else(|| JwtValidationError::MethodDataLookupError {
+        source: None,
+        message: "could not extract JWK from a method identified by kid",
+        signer_ctx: SignerContext::Issuer,
+      })
+      .map(move |jwk: &'a Jwk| -> (t: (&'a Jwk, DIDUrl)) ensures t.0 == jwk && t.1 == method_id { (jwk, method_id) })
+  }
+}
+#[verifier::external_body] pub fn invalid_nonce_error() -> identity_verification::jose::error::Error { unimplemented!() }
+
+impl<V: JwsVerifier> JwtCredentialValidator<V> {
+  pub fn decode(credential_jws: &str) -> (r: Result<JwsValidationItem<'_>, JwtValidationError>)
+    ensures r is Ok ==> r->Ok_0 == item_of(credential_jws.spec_bytes()),
+  {
+    let decoder: Decoder = Decoder::new();
+
+    decoder
+      .decode_compact_serialization(credential_jws.as_bytes(), None)
+      .map_err(|x_eta| -> (r_eta: JwtValidationError) ensures r_eta == JwtValidationError::JwsDecodingError(x_eta) { JwtValidationError::JwsDecodingError(x_eta) })
+  }
+  pub fn decode__canary(credential_jws: &str) -> (r: Result<JwsValidationItem<'_>, JwtValidationError>)
+    ensures r is Ok ==> r->Ok_0 == item_of(credential_jws.spec_bytes()),
+      false,
+  {
+    let decoder: Decoder = Decoder::new();
+
+    decoder
+      .decode_compact_serialization(credential_jws.as_bytes(), None)
+      .map_err(|x_eta| -> (r_eta: JwtValidationError) ensures r_eta == JwtValidationError::JwsDecodingError(x_eta) { JwtValidationError::JwsDecodingError(x_eta) })
+  }
+  pub fn verify_signature_raw<'a, S: JwsVerifier>(
+  decoded: JwsValidationItem<'a>,
+  public_key: &Jwk,
+  signature_verifier: &S,
+  ) -> (r: Result<DecodedJws<'a>, JwtValidationError>)
+    ensures r is Ok ==> verified_under(&decoded, signature_verifier, public_key) && cow_bytes(r->Ok_0.claims) == item_claims(&decoded) && r->Ok_0.protected == item_header(&decoded),
+  {
+    decoded
+      .verify(signature_verifier, public_key)
+      .map_err(|err| JwtValidationError::Signature {
+        source: err,
+        signer_ctx: SignerContext::Issuer,
+      })
+  }
+  pub fn verify_signature_raw__canary<'a, S: JwsVerifier>(
+  decoded: JwsValidationItem<'a>,
+  public_key: &Jwk,
+  signature_verifier: &S,
+  ) -> (r: Result<DecodedJws<'a>, JwtValidationError>)
+    ensures r is Ok ==> verified_under(&decoded, signature_verifier, public_key) && cow_bytes(r->Ok_0.claims) == item_claims(&decoded) && r->Ok_0.protected == item_header(&decoded),
+      false,
+  {
+    decoded
+      .verify(signature_verifier, public_key)
+      .map_err(|err| JwtValidationError::Signature {
+        source: err,
+        signer_ctx: SignerContext::Issuer,
+      })
+  }
+  pub fn verify_decoded_signature<S: JwsVerifier>(
+  decoded: JwsValidationItem<'_>,
+  public_key: &Jwk,
+  signature_verifier: &S,
+  ) -> (r: Result<DecodedJwtCredential, JwtValidationError>)
+    ensures
+      r is Ok ==> {
+        let claims = json_cred_claims(item_claims(&decoded));
+        // the JWS verified under the given key, and the credential returned is the one that was signed:
+        // the claims set decoded from exactly the verified payload, consistent and in range (contracts of unit jwt_claims)
+        &&& verified_under(&decoded, signature_verifier, public_key)
+        &&& claims is Some && cred_claims_consistent(&claims->Some_0) && issuance_unix(claims->Some_0.issuance_date) is Some
+        &&& r->Ok_0.credential.issuer == cow_issuer(claims->Some_0.iss)
+        &&& ts_unix(r->Ok_0.credential.issuance_date) == issuance_unix(claims->Some_0.issuance_date)->Some_0
+        &&& (r->Ok_0.credential.expiration_date is Some <==> claims->Some_0.exp is Some)
+        &&& (claims->Some_0.exp is Some ==> ts_unix(r->Ok_0.credential.expiration_date->Some_0) == claims->Some_0.exp->Some_0)
+        &&& r->Ok_0.custom_claims == claims->Some_0.custom
+        &&& *r->Ok_0.header == item_header(&decoded)
+      },
+  {
+    // Verify the JWS signature and obtain the decoded token containing the protected header and raw claims
+    let DecodedJws { protected, claims, .. } = Self::verify_signature_raw(decoded, public_key, signature_verifier)?;
+
+    let credential_claims: CredentialJwtClaims<'_> =
+      CredentialJwtClaims::from_json_slice(&claims).map_err(|err| {
+        JwtValidationError::CredentialStructure(Error::JwtClaimsSetDeserializationError(err.into()))
+      })?;
+
+    let custom_claims = credential_claims.custom.clone();
+
+    // Construct the credential token containing the credential and the protected header.
+    let credential: Credential = credential_claims
+      .try_into_credential()
+      .map_err(|x_eta| -> (r_eta: JwtValidationError) ensures r_eta == JwtValidationError::CredentialStructure(x_eta) { JwtValidationError::CredentialStructure(x_eta) })?;
+
+    Ok(DecodedJwtCredential {
+      credential,
+      header: Box::new(protected),
+      custom_claims,
+    })
+  }
+  pub fn verify_decoded_signature__canary<S: JwsVerifier>(
+  decoded: JwsValidationItem<'_>,
+  public_key: &Jwk,
+  signature_verifier: &S,
+  ) -> (r: Result<DecodedJwtCredential, JwtValidationError>)
+    ensures
+      r is Ok ==> {
+        let claims = json_cred_claims(item_claims(&decoded));
+        // the JWS verified under the given key, and the credential returned is the one that was signed:
+        // the claims set decoded from exactly the verified payload, consistent and in range (contracts of unit jwt_claims)
+        &&& verified_under(&decoded, signature_verifier, public_key)
+        &&& claims is Some && cred_claims_consistent(&claims->Some_0) && issuance_unix(claims->Some_0.issuance_date) is Some
+        &&& r->Ok_0.credential.issuer == cow_issuer(claims->Some_0.iss)
+        &&& ts_unix(r->Ok_0.credential.issuance_date) == issuance_unix(claims->Some_0.issuance_date)->Some_0
+        &&& (r->Ok_0.credential.expiration_date is Some <==> claims->Some_0.exp is Some)
+        &&& (claims->Some_0.exp is Some ==> ts_unix(r->Ok_0.credential.expiration_date->Some_0) == claims->Some_0.exp->Some_0)
+        &&& r->Ok_0.custom_claims == claims->Some_0.custom
+        &&& *r->Ok_0.header == item_header(&decoded)
+      },
+      false,
+  {
+    // Verify the JWS signature and obtain the decoded token containing the protected header and raw claims
+    let DecodedJws { protected, claims, .. } = Self::verify_signature_raw(decoded, public_key, signature_verifier)?;
+
+    let credential_claims: CredentialJwtClaims<'_> =
+      CredentialJwtClaims::from_json_slice(&claims).map_err(|err| {
+        JwtValidationError::CredentialStructure(Error::JwtClaimsSetDeserializationError(err.into()))
+      })?;
+
+    let custom_claims = credential_claims.custom.clone();
+
+    // Construct the credential token containing the credential and the protected header.
+    let credential: Credential = credential_claims
+      .try_into_credential()
+      .map_err(|x_eta| -> (r_eta: JwtValidationError) ensures r_eta == JwtValidationError::CredentialStructure(x_eta) { JwtValidationError::CredentialStructure(x_eta) })?;
+
+    Ok(DecodedJwtCredential {
+      credential,
+      header: Box::new(protected),
+      custom_claims,
+    })
+  }
+  pub fn verify_signature_with_verifier<S>(
+  signature_verifier: &S,
+  credential: &Jwt,
+  trusted_issuers: &[CoreDocument],
+  options: &JwsVerificationOptions,
+  ) -> (r: Result<DecodedJwtCredential, JwtValidationError>) where S: JwsVerifier,
+    ensures
+      r is Ok ==> exists|jwk: Jwk, id: DIDUrl| {
+        // key selection (nonce, kid / method id, issuer document by DID, scope) and C01 verification under that key
+        &&& #[trigger] jwk_selected(&item_of_jwt(credential), trusted_issuers@, options, &jwk, &id)
+        &&& verified_under(&item_of_jwt(credential), signature_verifier, &jwk)
+        // that method's DID equals the credential's issuer
+        &&& did_of_text(url_text(issuer_url(&r->Ok_0.credential.issuer))) == Some(*url_did(&id))
+      },
+  {
+    // Note the below steps are necessary because `CoreDocument::verify_jws` decodes the JWS and then searches for a
+    // method with a fragment (or full DID Url) matching `kid` in the given document. We do not want to carry out
+    // that process for potentially every document in `trusted_issuers`.
+
+    // Start decoding the credential
+    let decoded: JwsValidationItem<'_> = Self::decode(credential.as_str())?;
+    let (public_key, method_id) = Self::parse_jwk(&decoded, trusted_issuers, options)?;
+
+    let credential_token = Self::verify_decoded_signature(decoded, public_key, signature_verifier)?;
+
+    // Check that the DID component of the parsed `kid` does indeed correspond to the issuer in the credential before
+    // returning.
+    let issuer_id: CoreDID = JwtCredentialValidatorUtils::extract_issuer(&credential_token.credential)?;
+    if &issuer_id != method_id.did() {
+      return Err(JwtValidationError::IdentifierMismatch {
+        signer_ctx: SignerContext::Issuer,
+      });
+    };
+     proof { assert(jwk_selected(&item_of_jwt(credential), trusted_issuers@, options, public_key, &method_id)); assert(verified_under(&item_of_jwt(credential), signature_verifier, public_key)); } Ok(credential_token)
+  }
+  pub fn verify_signature_with_verifier__canary<S>(
+  signature_verifier: &S,
+  credential: &Jwt,
+  trusted_issuers: &[CoreDocument],
+  options: &JwsVerificationOptions,
+  ) -> (r: Result<DecodedJwtCredential, JwtValidationError>) where S: JwsVerifier,
+    ensures
+      r is Ok ==> exists|jwk: Jwk, id: DIDUrl| {
+        // key selection (nonce, kid / method id, issuer document by DID, scope) and C01 verification under that key
+        &&& #[trigger] jwk_selected(&item_of_jwt(credential), trusted_issuers@, options, &jwk, &id)
+        &&& verified_under(&item_of_jwt(credential), signature_verifier, &jwk)
+        // that method's DID equals the credential's issuer
+        &&& did_of_text(url_text(issuer_url(&r->Ok_0.credential.issuer))) == Some(*url_did(&id))
+      },
+      false,
+  {
+    // Note the below steps are necessary because `CoreDocument::verify_jws` decodes the JWS and then searches for a
+    // method with a fragment (or full DID Url) matching `kid` in the given document. We do not want to carry out
+    // that process for potentially every document in `trusted_issuers`.
+
+    // Start decoding the credential
+    let decoded: JwsValidationItem<'_> = Self::decode(credential.as_str())?;
+    let (public_key, method_id) = Self::parse_jwk(&decoded, trusted_issuers, options)?;
+
+    let credential_token = Self::verify_decoded_signature(decoded, public_key, signature_verifier)?;
+
+    // Check that the DID component of the parsed `kid` does indeed correspond to the issuer in the credential before
+    // returning.
+    let issuer_id: CoreDID = JwtCredentialValidatorUtils::extract_issuer(&credential_token.credential)?;
+    if &issuer_id != method_id.did() {
+      return Err(JwtValidationError::IdentifierMismatch {
+        signer_ctx: SignerContext::Issuer,
+      });
+    };
+     proof { assert(jwk_selected(&item_of_jwt(credential), trusted_issuers@, options, public_key, &method_id)); assert(verified_under(&item_of_jwt(credential), signature_verifier, public_key)); } Ok(credential_token)
+  }
+}
+
+impl JwtCredentialValidatorUtils {
+  pub fn check_revocation_bitmap_status(
+  issuer: &CoreDocument,
+  status: RevocationBitmapStatus,
+  ) -> (r: ValidationUnitResult)
+    ensures ({
+      let url = status_service_url(&status); let idx = status_index(&status);
+      // reported revoked exactly when the index is a member of the bitmap the status entry points at
+      &&& (url is Some && doc_bitmap(issuer, &url->Some_0) is Some && idx is Some)
+            ==> ((r matches Err(JwtValidationError::Revoked)) <==> rb_members(&doc_bitmap(issuer, &url->Some_0)->Some_0).contains(idx->Some_0))
+                && (r is Ok <==> !rb_members(&doc_bitmap(issuer, &url->Some_0)->Some_0).contains(idx->Some_0))
+      // an unusable status entry or service is an error, never an acceptance
+      &&& !(url is Some && doc_bitmap(issuer, &url->Some_0) is Some && idx is Some) ==> r is Err
+    }),
+  {
+    
+
+    let issuer_service_url: DIDUrl = status.id().map_err(|x_eta| -> (r_eta: JwtValidationError) ensures r_eta == JwtValidationError::InvalidStatus(x_eta) { JwtValidationError::InvalidStatus(x_eta) })?;
+
+    // Check whether index is revoked.
+    let revocation_bitmap: RevocationBitmap = issuer
+      .as_ref()
+      .resolve_revocation_bitmap(issuer_service_url.into())
+      .map_err(|_unused| JwtValidationError::ServiceLookupError)?;
+    let index: u32 = status.index().map_err(|x_eta| -> (r_eta: JwtValidationError) ensures r_eta == JwtValidationError::InvalidStatus(x_eta) { JwtValidationError::InvalidStatus(x_eta) })?;
+    if revocation_bitmap.is_revoked(index) {
+      Err(JwtValidationError::Revoked)
+    } else {
+      Ok(())
+    }
+  }
+  pub fn check_revocation_bitmap_status__canary(
+  issuer: &CoreDocument,
+  status: RevocationBitmapStatus,
+  ) -> (r: ValidationUnitResult)
+    ensures ({
+      let url = status_service_url(&status); let idx = status_index(&status);
+      // reported revoked exactly when the index is a member of the bitmap the status entry points at
+      &&& (url is Some && doc_bitmap(issuer, &url->Some_0) is Some && idx is Some)
+            ==> ((r matches Err(JwtValidationError::Revoked)) <==> rb_members(&doc_bitmap(issuer, &url->Some_0)->Some_0).contains(idx->Some_0))
+                && (r is Ok <==> !rb_members(&doc_bitmap(issuer, &url->Some_0)->Some_0).contains(idx->Some_0))
+      // an unusable status entry or service is an error, never an acceptance
+      &&& !(url is Some && doc_bitmap(issuer, &url->Some_0) is Some && idx is Some) ==> r is Err
+    }),
+      false,
+  {
+    
+
+    let issuer_service_url: DIDUrl = status.id().map_err(|x_eta| -> (r_eta: JwtValidationError) ensures r_eta == JwtValidationError::InvalidStatus(x_eta) { JwtValidationError::InvalidStatus(x_eta) })?;
+
+    // Check whether index is revoked.
+    let revocation_bitmap: RevocationBitmap = issuer
+      .as_ref()
+      .resolve_revocation_bitmap(issuer_service_url.into())
+      .map_err(|_unused| JwtValidationError::ServiceLookupError)?;
+    let index: u32 = status.index().map_err(|x_eta| -> (r_eta: JwtValidationError) ensures r_eta == JwtValidationError::InvalidStatus(x_eta) { JwtValidationError::InvalidStatus(x_eta) })?;
+    if revocation_bitmap.is_revoked(index) {
+      Err(JwtValidationError::Revoked)
+    } else {
+      Ok(())
+    }
+  }
+}
+} // mod cfns
 
 } // verus!
 fn main() {}
